@@ -9,7 +9,7 @@
    by c08.py through [c08_pre_code]). *)
 From PJ Require Import Base.Prelude Sched.Model Sched.Machine Sched.Instances Sched.C03Proofs Sched.WfIn
      Sched.C08Run Sched.C08Step Sched.C08Proofs Sched.C08Indep Sched.C08Leaves Sched.C08Check
-     Sched.C08Oracle Sched.C08Order Sched.C08Full Sched.Check Sched.Oracles Sched.OracleProofs.
+     Sched.C08Oracle Sched.C08Order Sched.C08Full Sched.C08IndepSim Sched.C08Renumber Sched.Check Sched.Oracles Sched.OracleProofs.
 
 (* Balancing on: for a free leaf t that was given a start s, the resource of t is fully booked on
    every day from the release day - the day of the latest of project start, prerequisite ends (own
@@ -55,18 +55,32 @@ Theorem C08_order : forall cfg w st,
     first_index (model_rows st) t1 0 = Some i -> first_index (model_rows st) t2 0 = Some j -> (i < j)%nat.
 Proof. exact C08_order_holds. Qed.
 
-(* Balancing off, the step lemma of the independence clause: the calculation of t reads the ledger
-   only through t's own reservations - on two ledgers that agree on them it yields the same dates
-   and the same new reservations; in particular the rows of any other task may be removed. *)
-Theorem C08_indep_partial : forall cfg w ds l1 l2 t b ds' l1',
+(* Balancing off: removing a task u that has nothing to do with anybody (a top-level leaf without
+   links, [c08_isolated]) from the WBS - its entry deleted from the table, the later tasks renumbered
+   ([c08_drop_task], [c08_shift]) - leaves start, end, estimate and spent of every other task
+   unchanged.  Proved by two simulations between runs of the recursive pass (blanking, renumbering). *)
+Theorem C08_indep : forall cfg w u st st',
+  balance cfg = false -> WFin w -> c08_isolated w u ->
+  forward cfg w = Ok st -> forward cfg (c08_drop_task u w) = Ok st' ->
+  forall t, t <> u -> getd st t = getd st' (c08_shift u t).
+Proof. exact C08_indep_holds. Qed.
+
+(* the intermediate form: the entry of u blanked ([c08_mask]: an unreferenced entry outside the WBS,
+   which no scheduler looks at), the other tasks keep their numbers *)
+Theorem C08_indep_masked : forall cfg w u st st2,
+  balance cfg = false -> WFin w -> c08_isolated w u ->
+  forward cfg w = Ok st -> forward cfg (c08_mask u w) = Ok st2 ->
+  forall t, t <> u -> getd st t = getd st2 t.
+Proof. exact C08_indep_mask_holds. Qed.
+
+(* the reason: the calculation of t reads the ledger only through t's own reservations - on two
+   ledgers that agree on them it yields the same dates and the same new reservations *)
+Theorem C08_indep_step : forall cfg w ds l1 l2 t b ds' l1',
   balance cfg = false -> c08_same_own t l1 l2 ->
   fwd_compute cfg w ds l1 t b = Ok (ds', l1') ->
   exists new, l1' = new ++ l1 /\ (forall x, In x new -> r_task x = t)
               /\ fwd_compute cfg w ds l2 t b = Ok (ds', new ++ l2).
 Proof. exact c08_fwd_compute_own_rows. Qed.
-
-(* the full clause (not proved): removing an isolated task leaves the dates of all others unchanged *)
-Definition C08_indep_statement : Prop := c08_indep_full.
 
 (* the executable oracle evaluated on the implementation's output means exactly the statement about
    the observed schedule (tight from the release day computed from the prerequisite leaves' observed
@@ -99,7 +113,8 @@ Proof. exact C08_model_passes_oracle_obs_of. Qed.
    units a day, project start on a Monday: the second task starts at noon on Tuesday and ends at noon
    on Wednesday, the third fills the rest of Wednesday; all hypotheses of the theorems hold, the three
    tasks are unlinked free leaves, the oracle accepts the model's output.  Balancing off: every task
-   starts on Monday, and dropping the second task leaves the third task's dates unchanged. *)
+   starts on Monday, the second task is isolated, and dropping (or blanking) it leaves the third task's
+   dates unchanged. *)
 Definition ex_cap (r : nat) (d : Z) : Z := if weekday_of_day d <? 5 then 64 else 0.
 Definition ex_cfg (bal : bool) : config :=
   {| cap := ex_cap; balance := bal; dflt_est := 0; pbound := 19723 * DAY; now := 19700 * DAY;
@@ -120,11 +135,13 @@ Example C08_example :
          /\ c08_b (ex_cfg true) ex_w (obs_of ex_w st) = true
      | _ => False
      end
-  /\ match forward (ex_cfg false) ex_w, forward (ex_cfg false) (c08_drop_task 1 ex_w) with
-     | Ok st, Ok st' =>
+  /\ c08_isolated ex_w 1
+  /\ match forward (ex_cfg false) ex_w, forward (ex_cfg false) (c08_drop_task 1 ex_w), forward (ex_cfg false) (c08_mask 1 ex_w) with
+     | Ok st, Ok st', Ok st2 =>
          d_start (getd st 2) = Some (19723 * DAY) /\ d_end (getd st 2) = Some (19723 * DAY + DAY / 2)
          /\ d_start (getd st' (c08_shift 1 2)) = d_start (getd st 2) /\ d_end (getd st' (c08_shift 1 2)) = d_end (getd st 2)
-     | _, _ => False
+         /\ getd st2 2 = getd st 2
+     | _, _, _ => False
      end.
 Proof.
   split; [intros r d; unfold ex_cap; destruct (weekday_of_day d <? 5); lia|].
@@ -135,7 +152,9 @@ Print Assumptions C08_tight.
 Print Assumptions C08_tight_leaves.
 Print Assumptions C08_encode.
 Print Assumptions C08_order.
-Print Assumptions C08_indep_partial.
+Print Assumptions C08_indep.
+Print Assumptions C08_indep_masked.
+Print Assumptions C08_indep_step.
 Print Assumptions C08_oracle_sound.
 Print Assumptions C08_oracle_complete.
 Print Assumptions C08_oracle_order_sound.
